@@ -1,6 +1,6 @@
 """C02 — every schema-valid JSON instance deserializes into the generated type (shape clauses)."""
 import re
-from lib import (norm_arm, walk, nodes, ends, src, psrc, outcome, contains_node, pat_top_variants, short, calls_in, block_last,
+from lib import (Canon, cguards, norm_arm, walk, nodes, ends, src, psrc, outcome, contains_node, pat_top_variants, short, calls_in, block_last,
                  strip_refs, guards, gtext, top_stmts, templates_in)
 
 EXPLANATION = (
@@ -25,14 +25,15 @@ def run(facts, rep, tier):
                 sites.append((h, n, anc))
     rep.floor("C02.W1", "constructions of StructPropertyState::Required", len(sites), 4)
     classifier = [q for q, f in c.fns.items() if not f.get("derived") and f["output"].endswith("StructPropertyState") and any("serde_json::Value" in t for t in f["inputs"])]
+    REQ_TEST = r"\$&BTreeSet<String>\.contains\(\$&str\)"
     for h, n, anc in sites:
         key = "%s#%d" % (h["fn"], sum(1 for o in rep.obligations if o["key"].startswith("C02.W1/required-justified:%s#" % h["fn"])))
-        gs = guards(anc, n)
+        cn = Canon(c, h, 4)
+        gs = cguards(cn, anc, n)
         conds = [g for g in gs if g[0] == "if"]
-        st = [a for a in anc if a.get("k") == "struct" and a["path"].endswith("StructProperty")]
+        st = [a for a in anc if a.get("k") == "struct" and a["path"].endswith("StructProperty") and "rest" not in a]
         flatten = bool(st) and dict((k, src(v)) for k, v in st[-1]["fields"]).get("rename") == "StructPropertyRename::Flatten"
         if h["fn"] in classifier:
-            # the classifier's Required must be converted by every caller
             callers = [(hh, x, xa) for hh in c.user_fns() for x, xa in walk(hh["body"]) if x.get("k") in ("call", "mcall") and x.get("fn") == h["fn"]]
             ok = bool(callers)
             for hh, x, xa in callers:
@@ -41,26 +42,29 @@ def run(facts, rep, tier):
                 if m:
                     for arm in m[-1]["arms"]:
                         if "StructPropertyState::Required" in psrc(arm["pat"]):
-                            s = src(arm["body"])
-                            good = "id_to_option(&type_id)" in s and src(block_last(arm["body"])) == "StructPropertyState::Optional"
+                            wraps = any(y.get("k") == "assign" and any(z.endswith("TypeSpace::id_to_option") for z in calls_in(y["r"])) for y, _ in walk(arm["body"]))
+                            good = wraps and src(block_last(arm["body"])) == "StructPropertyState::Optional"
                 ok = ok and good
             rep.ob("C02.W1", "required-justified:" + key, ok, "classifier result: its caller maps Required to Optional + Option<T>" if ok else "the classifier's Required is used as is: a property that is not in `required` becomes mandatory", n.get("sp"))
         elif flatten:
             rep.ob("C02.W1", "required-justified:" + key, True, "tabled exception: flattened member (no name of its own on the wire)")
-        elif any(re.fullmatch(r"required\.contains\(\w+\)", g[1]) for g in conds):
-            rep.ob("C02.W1", "required-justified:" + key, True, "on the branch `%s`" % conds[-1][1])
+        elif any(re.fullmatch(REQ_TEST, g[1]) for g in conds):
+            rep.ob("C02.W1", "required-justified:" + key, True, "on the branch `required.contains(prop_name)`")
         else:
             rep.ob("C02.W1", "required-justified:" + key, False, "a named property is marked Required without a test that the schema's `required` lists it (guards: %s)" % (gtext(gs) or "none"), n.get("sp"))
     # the branch test itself
     sp = [h for h in c.user_fns() if h["fn"].endswith("TypeSpace::struct_property")]
     if sp:
-        ifs = [n for n, _ in nodes(sp[0]["body"], "if") if re.fullmatch(r"required\.contains\(\w+\)", src(n["cond"]))]
-        ok = bool(ifs) and src(block_last(ifs[0]["then"])) == "StructPropertyState::Required" and "StructPropertyState::Required" not in src(block_last(ifs[0]["else"])).split("=>")[0]
-        rep.ob("C02.W1", "required-iff-listed", bool(ifs), "state = if required.contains(prop_name) { Required } else { classify(default) }" if ifs else "struct_property does not branch on required.contains(prop_name)")
-        # required set and name come from the caller unchanged
-        callers = [x for hh in c.user_fns() for x, _ in walk(hh["body"]) if x.get("k") in ("call", "mcall") and x.get("fn") == sp[0]["fn"]]
-        okc = bool(callers) and all("&validation.required" in src(x["args"]) and "prop_name" in src(x["args"]) for x in callers)
-        rep.ob("C02.W1", "required-set-is-the-schemas", okc, "struct_property(.., &validation.required, prop_name, schema)")
+        cnp = Canon(c, sp[0], 4)
+        ifs = [n for n, _ in nodes(sp[0]["body"], "if") if re.fullmatch(REQ_TEST, cnp.r(n["cond"]))]
+        rep.ob("C02.W1", "required-iff-listed", bool(ifs) and src(block_last(ifs[0]["then"])) == "StructPropertyState::Required", "state = if required.contains(prop_name) { Required } else { classify(default) }" if ifs else "struct_property does not branch on required.contains(prop_name)")
+        okc = False
+        for hh in c.user_fns():
+            for x, _ in walk(hh["body"]):
+                if x.get("k") in ("call", "mcall") and x.get("fn") == sp[0]["fn"]:
+                    a = [Canon(c, hh, 3).r(y) for y in x["args"]]
+                    okc = len(a) == 4 and a[1] == "$&ObjectValidation.required" and re.match(r"elem<\$&ObjectValidation\.properties\.iter\(\)\.chain\(.*>\.0$", a[2]) is not None and re.match(r"elem<\$&ObjectValidation\.properties\.iter\(\)\.chain\(.*>\.1$", a[3]) is not None
+        rep.ob("C02.W1", "required-set-is-the-schemas", okc, "struct_property(.., &validation.required, <property name>, <its schema>) over validation.properties")
 
     # ------------------------------------------------------------ W2
     n_src = 0
@@ -97,9 +101,10 @@ def run(facts, rep, tier):
     # propagation from a destructured struct is by the field itself
     ev = [h for h in c.user_fns() if h["fn"].endswith("TypeSpace::external_variant")]
     if ev:
-        rets = [src(n) for n, _ in walk(ev[0]["body"]) if n.get("k") == "tup" and len(n.get("es", [])) == 2 and src(n["es"][0]) == "details"]
-        ok = sorted(set(rets)) == ["(details, deny_unknown_fields)", "(details, false)"]
-        rep.ob("C02.W2", "variant-inherits-struct-flag", ok, "struct variant: the struct's own flag; tuple/unit/item: false" if ok else "external_variant returns %s" % sorted(set(rets)))
+        cne = Canon(c, ev[0], 4)
+        rets = sorted(set(re.sub(r"self\.convert_schema\(\$Name, \$&Schema\)\?\.0", "ty", cne.r(n)) for n, _ in walk(ev[0]["body"]) if n.get("k") == "tup" and len(n.get("es", [])) == 2 and "VariantDetails::" in cne.r(n["es"][0])))
+        want = sorted(["(VariantDetails::Tuple(ty~TypeEntry.details~Tuple), false)", "(VariantDetails::Simple, false)", "(VariantDetails::Struct(ty~TypeEntry.details~Struct~TypeEntryStruct.properties), ty~TypeEntry.details~Struct~TypeEntryStruct.deny_unknown_fields)", "(VariantDetails::Item(self.assign_type(ty)), false)"])
+        rep.ob("C02.W2", "variant-inherits-struct-flag", rets == want, "struct variant: the struct's own flag; tuple/unit/item: false" if rets == want else "external_variant returns %s" % rets)
 
     # ------------------------------------------------------------ W3 (shared with C05.T4)
     sv = [h for h in c.user_fns() if h["fn"].endswith("StringValidator::is_valid")]
